@@ -498,9 +498,11 @@ size_t ZSTD_seekable_decompress(ZSTD_seekable* zs, void* dst, size_t len, unsign
     U32 targetFrame = ZSTD_seekable_offsetToFrameIndex(zs, offset);
     U32 noOutputProgressCount = 0;
     size_t srcBytesRead = 0;
+    int frameFinished = 0;   /* the end of the current frame was reached and its checksum verified */
     do {
         /* check if we can continue from a previous decompress job */
         if (targetFrame != zs->curFrame || offset < zs->decompressedOffset) {
+            frameFinished = 0;
             /* forget the current position first : if anything below fails,
              * the next call must start from a frame boundary again instead of
              * continuing from a position that was never reached */
@@ -567,6 +569,7 @@ size_t ZSTD_seekable_decompress(ZSTD_seekable* zs, void* dst, size_t len, unsign
                     zs->curFrame = (U32)-1;
                     return ERROR(corruption_detected);
                 }
+                frameFinished = 1;
 
                 if (zs->decompressedOffset < offset + len) {
                     /* go back to the start and force a reset of the stream */
@@ -597,6 +600,50 @@ size_t ZSTD_seekable_decompress(ZSTD_seekable* zs, void* dst, size_t len, unsign
             }
         }  /* while (zs->decompressedOffset < offset + len) */
     } while (zs->decompressedOffset != offset + len);
+
+    /* The request ends with the last byte of a frame : all of its content has been produced,
+     * but the decoder has not reached the end of the frame yet, where the checksum is verified.
+     * Finish the frame now, so that damaged content is not returned as a success. */
+    if (zs->seekTable.checksumFlag && len > 0 && !frameFinished
+      && zs->curFrame < zs->seekTable.tableLen
+      && zs->decompressedOffset == zs->seekTable.entries[zs->curFrame + 1].dOffset) {
+        noOutputProgressCount = 0;
+        for (;;) {
+            ZSTD_outBuffer outTmp = {zs->outBuff, SEEKABLE_BUFF_SIZE, 0};
+            size_t const prevInPos = zs->in.pos;
+            size_t toRead = ZSTD_decompressStream(zs->dstream, &outTmp, &zs->in);
+            if (ZSTD_isError(toRead)) {
+                zs->curFrame = (U32)-1;
+                return toRead;
+            }
+            if (outTmp.pos != 0) {
+                /* the frame holds more than the seek table announces */
+                zs->curFrame = (U32)-1;
+                return ERROR(corruption_detected);
+            }
+            if (toRead == 0) {
+                if ((XXH64_digest(&zs->xxhState) & 0xFFFFFFFFU) !=
+                            zs->seekTable.entries[zs->curFrame].checksum) {
+                    zs->curFrame = (U32)-1;
+                    return ERROR(corruption_detected);
+                }
+                break;
+            }
+            if (zs->in.pos == zs->in.size) {
+                toRead = MIN(toRead, SEEKABLE_BUFF_SIZE);
+                if (zs->src.read(zs->src.opaque, zs->inBuff, toRead) < 0) {
+                    zs->curFrame = (U32)-1;
+                    return ERROR(seekableIO);
+                }
+                zs->in.size = toRead;
+                zs->in.pos = 0;
+            } else if (zs->in.pos == prevInPos
+                    && noOutputProgressCount++ > ZSTD_SEEKABLE_NO_OUTPUT_PROGRESS_MAX) {
+                zs->curFrame = (U32)-1;
+                return ERROR(seekableIO);
+            }
+        }
+    }
 
     return len;
 }
